@@ -458,21 +458,25 @@ func c05Q(ss []string) string {
 
 // c05Judge runs the property's own statement on one (variant, options, source).  It returns ""
 // when the property holds or cannot be judged (tag says why), else a description.
-func c05Judge(lang syntax.LangVariant, o c05Opts, src string, f *syntax.File) (what, tag string, printed string) {
+func c05Judge(lang syntax.LangVariant, o c05Opts, src string, f *syntax.File) (what, tag string, printed string, got []string) {
 	before := c05Comments(f)
 	out, err, pn := c05Print(o, f)
 	if pn != "" {
-		return "", "print-panic", ""
+		return "", "print-panic", "", nil
 	}
 	if err != nil {
-		return "", "print-error", ""
+		return "", "print-error", "", nil
 	}
 	f2, err2, pn2 := parseIn(out, lang, syntax.KeepComments(true))
 	if pn2 != "" || err2 != nil || f2 == nil {
-		return "", "reparse-error", out
+		return "", "reparse-error", out, nil
 	}
 	after := c05Comments(f2)
 	a, b := c05Texts2(before), c05Texts2(after)
+	got = b
+	if got == nil {
+		got = []string{}
+	}
 	if o.minify {
 		// only a shebang on the first line may be kept
 		var allowed []string
@@ -481,11 +485,11 @@ func c05Judge(lang syntax.LangVariant, o c05Opts, src string, f *syntax.File) (w
 		}
 		switch {
 		case len(b) == 0:
-			return "", "minify-none", out
+			return "", "minify-none", out, got
 		case len(b) == 1 && len(allowed) == 1 && b[0] == allowed[0] && after[0].line == 1:
-			return "", "minify-shebang", out
+			return "", "minify-shebang", out, got
 		}
-		return fmt.Sprintf("Minify kept %s; only a first-line shebang %s may be kept; output %q", c05Q(b), c05Q(allowed), out), "minify-bad", out
+		return fmt.Sprintf("Minify kept %s; only a first-line shebang %s may be kept; output %q", c05Q(b), c05Q(allowed), out), "minify-bad", out, got
 	}
 	if len(a) == len(b) {
 		same := true
@@ -495,7 +499,7 @@ func c05Judge(lang syntax.LangVariant, o c05Opts, src string, f *syntax.File) (w
 			}
 		}
 		if same {
-			return "", "same", out
+			return "", "same", out, got
 		}
 	}
 	kind := "changed"
@@ -510,7 +514,7 @@ func c05Judge(lang syntax.LangVariant, o c05Opts, src string, f *syntax.File) (w
 	case len(b) > len(a):
 		kind = "gained"
 	}
-	return fmt.Sprintf("comments %s: source has %s, formatted output has %s; output %q", kind, c05Q(a), c05Q(b), out), kind, out
+	return fmt.Sprintf("comments %s: source has %s, formatted output has %s; output %q", kind, c05Q(a), c05Q(b), out), kind, out, got
 }
 
 // ---------------------------------------------------------------------------------------------
@@ -822,9 +826,32 @@ func c05(c *Ctx) {
 					fieldProgs[k]++
 				}
 			}
+			sexp, dump, dumpPanic := c05Dump(f)
+			if dumpPanic != "" {
+				c.Hist["dump-panic"]++
+			} else if dump.skip != "" {
+				c.Hist["tie-out-of-scope="+dump.skip]++
+			}
+			var tieMasks, tieGot, specMasks, specGot []string
 			for _, o := range j.opts {
 				witness := fmt.Sprintf("fmt %s %d %s", langName(lang), o.mask(), hx(j.src))
-				what, tag, _ := c05Judge(lang, o, j.src, f)
+				what, tag, _, got := c05Judge(lang, o, j.src, f)
+				if got != nil && dumpPanic == "" && dump.skip == "" && !j.known {
+					// correspondence: the comments found in the real output = the model's ghost output
+					switch skip := c05TieSkip(o, f, dump); {
+					case skip != "":
+						c.Hist["tie-skip="+skip]++
+					case !c05Sane(lang, o, j.src):
+						c.Hist["tie-skip=roundtrip-broken-without-comments"]++
+					default:
+						tieMasks = append(tieMasks, fmt.Sprint(o.mask()))
+						tieGot = append(tieGot, c05Show(got))
+						if c05Excluded(o, f) == "" {
+							specMasks = append(specMasks, fmt.Sprint(o.mask()))
+							specGot = append(specGot, c05Show(got))
+						}
+					}
+				}
 				tags := []string{"lang=" + langName(lang), "search=" + tag, fmt.Sprintf("comments<%d", c05Bucket(total))}
 				if !j.known {
 					if ex := c05Excluded(o, f); ex != "" {
@@ -836,12 +863,31 @@ func c05(c *Ctx) {
 						what = ""
 					}
 				}
+				if what != "" && !c05Sane(lang, o, j.src) {
+					// the formatted program does not even re-parse to the same program with all
+					// comments removed beforehand: a print/parse round-trip defect (C01's subject),
+					// not a statement about comments
+					tags = append(tags, "roundtrip-broken-without-comments")
+					if !j.known {
+						what = ""
+					}
+				}
 				if o.mask() == 0 {
 					tags = append(tags, ftags...)
 				}
 				c.Case(witness, total >= 2 && len(fields) >= 2, tags...)
 				if what != "" {
 					c.Fail(witness, what)
+				}
+			}
+			if dumpPanic == "" && dump.skip == "" && !j.known {
+				ms := "-"
+				if len(tieMasks) > 0 {
+					ms = strings.Join(tieMasks, ",")
+				}
+				c.Op("tree "+ms+" "+sexp, "wf=true order="+c05Show(c05Texts2(c05Comments(f)))+" emit="+strings.Join(tieGot, " | "))
+				if len(specMasks) > 0 {
+					c.Op("specfmt "+strings.Join(specMasks, ",")+" "+sexp, strings.Join(specGot, " | "))
 				}
 			}
 		}
@@ -864,15 +910,46 @@ func c05Bucket(n int) int {
 	return 0
 }
 
+// c05Sane reports whether src, parsed WITHOUT comments and printed with the options, re-parses
+// to the same program (compared through the default printer).
+func c05Sane(lang syntax.LangVariant, o c05Opts, src string) bool {
+	f0, err, pn := parseIn(src, lang)
+	if pn != "" || err != nil || f0 == nil {
+		return false
+	}
+	out0, err, pn := c05Print(o, f0)
+	if pn != "" || err != nil {
+		return false
+	}
+	f1, err, pn := parseIn(out0, lang)
+	if pn != "" || err != nil || f1 == nil {
+		return false
+	}
+	c05NormHdocs(f0)
+	c05NormHdocs(f1)
+	return c05SameShape(reflect.ValueOf(f0), reflect.ValueOf(f1))
+}
+
 // c05Excluded names the known-finding region (if any) the (options, tree) pair lies in.  Each
 // region is a precise predicate on the parsed tree; see props/C05.notes.md and
 // known-findings.jsonl for the witness of each.
 func c05Excluded(o c05Opts, f *syntax.File) string {
-	reason := ""
+	if rs := c05Regions(o, f); len(rs) > 0 {
+		return rs[0]
+	}
+	return ""
+}
+
+// c05Regions lists every known-finding region the (options, tree) pair lies in.
+func c05Regions(o c05Opts, f *syntax.File) []string {
+	var reasons []string
 	set := func(r string) {
-		if reason == "" {
-			reason = r
+		for _, x := range reasons {
+			if x == r {
+				return
+			}
 		}
+		reasons = append(reasons, r)
 	}
 	has := func(n any) bool { return len(c05CommentsOf(reflect.ValueOf(n))) > 0 }
 	var stmtEndsBare func(s *syntax.Stmt) bool
@@ -909,10 +986,6 @@ func c05Excluded(o c05Opts, f *syntax.File) string {
 	})
 	syntax.Walk(f, func(n syntax.Node) bool {
 		switch n := n.(type) {
-		case *syntax.TestClause:
-			if o.single && anyHdoc {
-				set("single-heredoc-then-test-clause") // F11 (parser: heredoc body not read after `]]`)
-			}
 		case *syntax.Redirect:
 			if n.Op == syntax.DashHdoc && n.Hdoc != nil {
 				for _, c := range c05CommentsOf(reflect.ValueOf(n.Hdoc)) {
@@ -960,8 +1033,18 @@ func c05Excluded(o c05Opts, f *syntax.File) string {
 					}
 				}
 			}
+			if fd, ok := n.Cmd.(*syntax.FuncDecl); ok && len(fd.Body.Comments) > 0 && stmtEndsBare(fd.Body) {
+				set("comment-after-bare-time-coproc") // F5 (comment queued before the body is flushed after it)
+			}
 			fc, isFor := n.Cmd.(*syntax.ForClause)
 			for _, c := range n.Comments {
+				if n.Cmd == nil && c.Pos().After(n.Pos()) {
+					for _, r := range n.Redirs {
+						if c05HasSubst(r) {
+							set("redirect-only-stmt-comment") // F13b: printed before the statement, flushed inside its substitution
+						}
+					}
+				}
 				if n.Cmd == nil || !c.Pos().After(n.Pos()) || c.End().After(n.Cmd.End()) {
 					continue
 				}
@@ -998,7 +1081,7 @@ func c05Excluded(o c05Opts, f *syntax.File) string {
 		}
 		return true
 	})
-	return reason
+	return reasons
 }
 
 // c05HasSubst reports whether a command or process substitution occurs below n.
@@ -1012,4 +1095,128 @@ func c05HasSubst(n syntax.Node) bool {
 		return !found
 	})
 	return found
+}
+
+func c05Show(ts []string) string {
+	if len(ts) == 0 {
+		return "none"
+	}
+	return hxs(ts)
+}
+
+// c05TieSkip names the reason (if any) why the comments found by re-parsing the printed output
+// cannot be expected to equal the model's ghost output although the model is faithful: the
+// written comment is altered or swallowed by something outside the comment plumbing (tabwriter,
+// spacing, the parser's own defects).  Each reason is one of the documented findings.
+func c05TieSkip(o c05Opts, f *syntax.File, d *c05Dumper) string {
+	if o.minify && o.keepPad {
+		return "minify-with-keeppadding" // p.wantSpace depends on the column counter; not modelled
+	}
+	if o.minify && d.hasReplyVar {
+		return "minify-with-replyvar"
+	}
+	for _, ex := range c05Regions(o, f) {
+		switch ex {
+		case "comment-ends-in-backslash", "formfeed-in-comment", "comment-after-bare-time-coproc",
+			"empty-case-comment-into-heredoc", "tab-in-dash-heredoc-comment", "tab-in-backquote-comment",
+			"single-for-name-comment":
+			return ex
+		}
+	}
+	return ""
+}
+
+// c05NormHdocs strips the leading tabs of every line of `<<-` heredoc bodies (the printer
+// re-indents them; the shell strips them).
+func c05NormHdocs(f *syntax.File) {
+	syntax.Walk(f, func(n syntax.Node) bool {
+		r, ok := n.(*syntax.Redirect)
+		if !ok || r.Op != syntax.DashHdoc || r.Hdoc == nil {
+			return true
+		}
+		startOfLine := true
+		for _, wp := range r.Hdoc.Parts {
+			if l, ok := wp.(*syntax.Lit); ok {
+				var sb strings.Builder
+				for _, b := range []byte(l.Value) {
+					if startOfLine && b == '\t' {
+						continue
+					}
+					startOfLine = b == '\n'
+					sb.WriteByte(b)
+				}
+				l.Value = sb.String()
+			} else {
+				startOfLine = false
+			}
+		}
+		return true
+	})
+}
+
+var c05PosT = reflect.TypeOf(syntax.Pos{})
+var c05ComsT = reflect.TypeOf([]syntax.Comment{})
+
+// c05SameShape compares two syntax trees ignoring positions, comments and the purely cosmetic
+// flags the printer normalises (CmdSubst.Backquotes, ArithmExp.Bracket, ForClause.Braces,
+// ParamExp.Short).
+func c05SameShape(a, b reflect.Value) bool {
+	if a.Kind() != b.Kind() {
+		return false
+	}
+	switch a.Kind() {
+	case reflect.Pointer, reflect.Interface:
+		if a.IsNil() || b.IsNil() {
+			return a.IsNil() == b.IsNil()
+		}
+		if a.Kind() == reflect.Interface && a.Elem().Type() != b.Elem().Type() {
+			return false
+		}
+		return c05SameShape(a.Elem(), b.Elem())
+	case reflect.Slice:
+		if a.Type() == c05ComsT {
+			return true
+		}
+		if a.Len() != b.Len() {
+			return false
+		}
+		for i := 0; i < a.Len(); i++ {
+			if !c05SameShape(a.Index(i), b.Index(i)) {
+				return false
+			}
+		}
+		return true
+	case reflect.Struct:
+		if a.Type() != b.Type() {
+			return false
+		}
+		if a.Type() == c05PosT {
+			return true
+		}
+		for i := 0; i < a.NumField(); i++ {
+			ft := a.Type().Field(i)
+			if !ft.IsExported() {
+				continue
+			}
+			switch ft.Name {
+			case "Backquotes", "Bracket", "Braces", "Short":
+				if ft.Type.Kind() == reflect.Bool {
+					continue
+				}
+			}
+			if !c05SameShape(a.Field(i), b.Field(i)) {
+				return false
+			}
+		}
+		return true
+	case reflect.String:
+		return a.String() == b.String()
+	case reflect.Bool:
+		return a.Bool() == b.Bool()
+	case reflect.Int, reflect.Int8, reflect.Int16, reflect.Int32, reflect.Int64:
+		return a.Int() == b.Int()
+	case reflect.Uint, reflect.Uint8, reflect.Uint16, reflect.Uint32, reflect.Uint64:
+		return a.Uint() == b.Uint()
+	}
+	return true
 }
